@@ -69,7 +69,10 @@ class RecFrame:
     def to_string(self, *a, **k):
         return "<frame>"
 
-    def to_csv(self, path, index=True):
+    def to_csv(self, path, index=True, **options):
+        # options that cannot change which rows/columns/values are written are ignored; the others are recorded
+        benign = {"encoding": None, "sep": ",", "header": True, "lineterminator": None, "mode": "w"}
+        self.csv_options = {k: v for k, v in options.items() if not (k in benign and (benign[k] is None or benign[k] == v))}
         self.csv = (path, index)
 
 
@@ -337,7 +340,8 @@ def job_export(gear_cls, hist, units, time_unit, with_current=True):
                     else:
                         goals.append(L.eq(L.mul(got[k], AU.fac(KIND_OF[v], units[UNIT_ARG[v]])), ser[k].si()))
             O.prove("export:one-row-per-instant;every-sample-converted-to-the-requested-unit", L.And(*goals), props=("C18",))
-            O.prove("export:written-as-csv-without-index", fr.csv == ("out/x.csv", False), props=("C18",))
+            O.prove("export:written-as-csv-without-index", fr.csv == ("out/x.csv", False) and not getattr(fr, "csv_options", None), props=("C18",),
+                    note=f"to_csv options that affect what is written: {getattr(fr, 'csv_options', None)}")
     return Job(f"powertrain.export[{gear_cls},{hist} instants,time in {time_unit}{'' if with_current else ',motor without current data'}]", body, ("C18", "C17"),
                functions=["gearpy.utils.export.export_time_variables"], expect_covers=("returns",),
                meta=dict(family="export", cls=gear_cls, hist=hist))
@@ -427,10 +431,32 @@ def job_solver_init():
         if s is None:
             return
         pt = s[0]
+        p0 = sym.term_of(s[4][(s[1].name, "pwm")][0])
+        c.assume(z3.And(p0 >= -1, p0 <= 1))                   # a recorded duty cycle (class invariant of DCMotor.pwm)
         st, r = H.call(S.Solver, pt)
         O.prove("Solver.__init__:accepts-a-powertrain-and-starts-unlocked",
                 st == "ok" and any(v is pt for v in r.__dict__.values()) and any(v is False for v in r.__dict__.values()) and
                 not any(v is True for v in r.__dict__.values()), props=("C12", "C13"))
+        if st == "ok":
+            # OWNERSHIP (what makes the abstract powertrain of the solver proofs legitimate: there the solver reads the time axis and the
+            # recorded series THROUGH the powertrain at every use).  A solver may keep a reference to a container of the powertrain
+            # only if that reference stays the container the powertrain exposes -- in particular across Powertrain.reset(), after which
+            # "the same solver object or a new one" must behave alike (C12).
+            solver = r
+
+            def exposed():
+                cur = [pt.time]
+                for e in pt.elements:
+                    cur.append(e.time_variables)
+                    cur.extend(e.time_variables.values())
+                return cur
+            held = [v for v in solver.__dict__.values() if isinstance(v, (list, dict, set))]
+            O.prove("Solver.__init__:every-container-it-keeps-is-one-the-powertrain-exposes", all(any(v is x for x in exposed()) for v in held),
+                    props=("C12",), note=f"{len(held)} container(s) kept")
+            st2, r2 = H.call(pt.reset)
+            O.prove("Solver:after-Powertrain.reset-every-container-it-keeps-is-still-the-one-the-powertrain-exposes(same solver = new solver)",
+                    st2 == "ok" and all(any(v is x for x in exposed()) for v in held), props=("C12",),
+                    note="a stale alias of the time axis or of a series makes a rerun on the same solver differ from a rerun on a new one")
         st, r = H.call(S.Solver, object())
         O.prove("Solver.__init__:rejects-a-non-powertrain", st == "raise" and isinstance(r, TypeError), props=("C12",))
         O.cover("done")
